@@ -55,7 +55,7 @@ LEVEL = "proof"
 THEOREMS = [
     "C15_wf_invariant", "C15_seq_in_log_order", "C15_last_seq_mono", "C15_no_abort", "C15_repoint_nearest",
     "C15_nearest_is_ancestor", "C15_repoint_cycle", "C15_current_kept", "C15_delete_exact", "C15_entries_provenance",
-    "C15_repoint_all", "C15_txn_files", "C15_delete_complete", "C15_txn_delete_complete", "C15_mlog_ok", "C15_mlog_names_superseded", "C15_mutators_regenerated", "C15_file_ops_regenerated", "C15_step_regenerated", "C09_by_timestamp", "C09_delete_current", "C09_by_id",
+    "C15_repoint_all", "C15_txn_files", "C15_delete_complete", "C15_txn_delete_complete", "C15_mlog_ok", "C15_mlog_names_superseded", "C15_mutators_regenerated", "C15_file_ops_regenerated", "C15_step_regenerated", "C15_entry_codec_preserves", "C09_by_timestamp", "C09_delete_current", "C09_by_id",
 ]
 REQ = ["DS.Model.MetaBase", "DS.Gen.GenRepoint", "DS.Model.Meta"]
 
@@ -1607,7 +1607,7 @@ def run(ctx) -> None:
         "single committer: histories are sequential (interleavings are property C01)",
         "metadata files named by the metadata log exist because nothing deletes metadata/v*.metadata.json (checked on disk by the oracle after every step, including after garbage_collect)",
     ]
-    ctx.proofs(THEOREMS, gen_files=["GenRepoint.v", "GenMeta.v", "GenFileOps.v", "GenCommit.v"])
+    ctx.proofs(THEOREMS, gen_files=["GenRepoint.v", "GenMeta.v", "GenFileOps.v", "GenCommit.v", "GenEntryCodec.v"])
     ctx.allow_axioms([])
     # implementation-only oracles + correspondence share the history runs
     import time
